@@ -16,18 +16,12 @@ pub fn fresh_bytes() -> [u8; 1029] {
     d
 }
 
-#[kani::proof]
-#[kani::unwind(1031)]
-pub fn clear() {
+/// L1 for one concrete no-wire-form message (a symbolic choice between the three makes CBMC walk all
+/// 108 encoder arms of build_message under infeasible guards: 10+ minutes for nothing).
+pub fn clear_with(msg: Message) {
     let mut data: [u8; 1029] = kani::any();
     data[0] = 0xD3;
     let mut b = MessageBuilder::verif_from_raw(data, true);
-    let which: u8 = kani::any();
-    let msg = match which {
-        0 => Message::Empty,
-        1 => Message::Corrupt,
-        _ => Message::MsgNotSupported(MsgNotSupportedT { message_number: kani::any() }),
-    };
     let r = b.build_message(&msg);
     assert!(matches!(r, Err(RtcmError::EncodingNotSupported)));
     let (d, has_run) = b.verif_raw();
@@ -47,6 +41,21 @@ pub fn clear() {
         assert!(fd[i] == 0);
         i += 1;
     }
+}
+#[kani::proof]
+#[kani::unwind(1031)]
+pub fn clear_empty() {
+    clear_with(Message::Empty);
+}
+#[kani::proof]
+#[kani::unwind(1031)]
+pub fn clear_corrupt() {
+    clear_with(Message::Corrupt);
+}
+#[kani::proof]
+#[kani::unwind(1031)]
+pub fn clear_unsupported() {
+    clear_with(Message::MsgNotSupported(MsgNotSupportedT { message_number: kani::any() }));
 }
 
 /// Compare a build from `state` with a build from a fresh builder, same message.
